@@ -259,8 +259,10 @@ func C05(c *sim.Ctx) {
 			rst = im.st
 			c.Fault("crash_after_commit")
 		}
-		recoverAndCheck(c, rst, newState, rec, im, d.g, recoverTape, d.opts)
-		rst.Close()
+		func() {
+			defer rst.Close() // also when the oracle ends the run: an open instance must not outlive it
+			recoverAndCheck(c, rst, newState, rec, im, d.g, recoverTape, d.opts)
+		}()
 		c.Evals++
 	}
 	c.Nontrivial = len(images) >= 3
